@@ -555,10 +555,11 @@ func (pck *pebbleEngCheckpoint) Save(path string, notify chan struct{}) error {
 	if pck.pe.IsClosed() {
 		return errDBEngClosed
 	}
+	// pebble copies its wal files as a whole at the end of the checkpoint, so any write
+	// done before it returns may be included: the caller can only continue after that.
+	err := pck.pe.eng.Checkpoint(path)
 	if notify != nil {
-		time.AfterFunc(time.Millisecond*20, func() {
-			close(notify)
-		})
+		close(notify)
 	}
-	return pck.pe.eng.Checkpoint(path)
+	return err
 }
